@@ -9,9 +9,9 @@ PKG = "vdr/didnuts"
 HARNESS = ["vdr/didnuts/zz_verif_c09_test.go"]
 
 REQUIRED = ["accepted_create_sound", "accepted_create_signed_by_did_key", "accepted_update_sound",
-            "accepted_update_signed_by_controller_key", "rejected_inert", "accepted_changes_own_did_only",
+            "accepted_update_signed_by_controller_key", "callback_accepts_iff", "rejected_inert", "accepted_changes_own_did_only",
             "controller_chain_bounded", "controller_cycle_refused", "deactivated_controller_rejected",
-            "controllers_never_deactivated", "removed_key_rejected", "removed_key_rejected_self_controlled",
+            "controllers_never_deactivated", "controller_versions_are_active", "validator_rules_partial", "validator_rules_embedded_witness", "removed_key_rejected", "removed_key_rejected_self_controlled",
             "validator_rules_sound_complete", "validator_rules_each_necessary",
             "fact_network_validators", "fact_entry_id_checks", "fact_validator_scope", "fact_max_controller_depth",
             "fact_resolve_conditions", "fact_controller_skips", "fact_create_update_split", "fact_callback_steps",
@@ -93,7 +93,7 @@ def run(ctx):
         env["VERIF_REPLAY"] = os.path.abspath(ctx.replay)
     else:
         env["VERIF_CORPUS"] = os.path.join(os.path.dirname(os.path.dirname(os.path.abspath(__file__))), "harness", "corpus", "C09")
-        env["VERIF_HISTORIES"] = 1400 if ctx.thorough else 140
+        env["VERIF_HISTORIES"] = 1400 if ctx.thorough else 220
     rc, log, out = ctx.run_harness(binary, "TestVerifC09", env, timeout=3000)
     if rc != 0:
         ctx.oblige("harness-runs", False, log[-1500:])
